@@ -11,5 +11,6 @@ CONSTANTS
   MaxLen = 99
   IdxArgs = {0}
   NoArg = 99
+  Park = TRUE
 VIEW TView
 CHECK_DEADLOCK FALSE
